@@ -13,6 +13,7 @@ def run(ctx):
     ctx.trusted_base += [
         "tools/gofacts: the eight conversions of hashrate.go translated to Gen.C20 over Rat, exact and with an explicit rounding function after every float operation",
         "correspondence harness harness/hashrate/verif_c20_test.go: real conversions vs Gen (8*2^-53 relative), real Mean/Ema/Sma under virtual time vs Model/Estimators.lean (Ema decay = exact value of Float.exp)",
+        "the mean where it is used: the delivery harness of C09 (real seller watcher, allocator, schedulers over fake miners under virtual time) runs here too; the mean hashrate the contract reports is judged against the work that reached its destination over the time since it started delivering (Driver/C09.lean, clause C20)",
         "modelled, not verified: Model/Estimators.lean (hand-written from mean.go, ema.go, sma.go)",
     ]
     ctx.assumptions += ["IEEE-754 binary64 correctly rounded, no overflow/underflow in the magnitudes used (hypothesis `Rounding u fl`, u = 2^-53)",
@@ -31,6 +32,34 @@ def run(ctx):
         return
     complaints = L.run_monitor(ctx, "c20", TRANSCRIPT)
     L.handle_complaints(ctx, complaints, sig_of)
+    # the mean estimator where it is used: the hashrate a running seller contract reports (closed loop of C09: real watcher,
+    # allocator and schedulers over fake miners in virtual time) against the work that reached its destination
+    cexe = L.build_harness(ctx, "contract")
+    est_lines = 0
+    if cexe:
+        rc, out = L.run_harness(ctx, cexe, "TestVerifDelivery$", env={"VERIF_N": 30 if ctx.tier == "quick" else 600, "VERIF_FLUSH": 1}, timeout=1700)
+        if rc != 0:
+            ctx.tie_failures.append("delivery harness run failed (rc=%d): %s" % (rc, out[-300:]))
+        else:
+            dcases = dict(L.parse_cases(ctx.out + "/delivery.impl.txt"))
+            est_lines = sum(1 for ls in dcases.values() for l in ls if l.startswith("< est"))
+            seen_e = set()
+            for case, c in L.run_monitor(ctx, "c09", "delivery.impl.txt"):
+                body, _, op = c.partition(" @ ")
+                if not body.startswith("C20 "):
+                    continue
+                sig = "c20:contract-mean-is-not-work-over-elapsed-time"
+                if sig in seen_e:
+                    continue
+                seen_e.add(sig)
+                ops = []
+                for l in dcases.get(case, []):
+                    if l.startswith("> "):
+                        ops.append(l)
+                        if l[2:] == op:
+                            break
+                L.violation(ctx, sig, body[4:] + " @ " + op, {"clause": body[4:], "case": case, "ops": ops, "how_to_replay": "bin/check C09 --replay <this file>"})
+    ctx.coverage["contract_mean_observations"] = est_lines
     cases = L.parse_cases("%s/%s" % (ctx.out, TRANSCRIPT))
     kinds, nops, distinct = {}, 0, set()
     for h, lines in cases:
